@@ -160,6 +160,30 @@ def _report(ctx, key, where_node, fq, only_l, only_r, desc):
     return bad
 
 
+def run_function_pairs(prog, ctx, tag, modules):
+    """The function pairs of the given modules only (used by other properties that rely on one strand being the mirror of the other)."""
+    n = 0
+    for rel, lq, rq, rkw, desc in FUNCTION_PAIRS:
+        if rel not in modules:
+            continue
+        fl, fr = prog.func(rel, lq), prog.func(rel, rq)
+        try:
+            only_l, only_r, nl, nr = reflect.compare(fl, fr, _roles(**dict(rkw)))
+        except reflect.Unsupported:
+            continue
+        n += 1
+        bad = False
+        for side, facts in (("mirror of left", only_l), ("right", only_r)):
+            for guards, fact in facts:
+                bad = True
+                ctx.fail(tag, fr, "%s / %s" % (lq, rq), "%s: %s | under {%s}" % (side, fact[:200], "; ".join(guards)[:150]),
+                         "%s: the '-' strand twin is not the mirror image of the '+' strand one (this fact of the %s side has no counterpart): "
+                         "a read and its reverse-strand image are verified differently" % (desc, side))
+        if not bad:
+            ctx.ok(tag, "%s:%d" % (rel, fr.lineno), "%s / %s are exact mirror images (%d facts)" % (lq, rq, nr))
+    return n
+
+
 def run(prog, ctx):
     ctx.rule("X1", "typed reflection: function pairs, left/right block pairs, direction-flag branches and first/last interval literals are "
                    "reduced to multisets of canonical facts (guards and effects in linear normal form over dualised atoms); the mirrored "
